@@ -3,17 +3,42 @@
 #![allow(non_snake_case, dead_code, unused_imports, clippy::all)]
 
 pub mod fp;
+pub mod jet;
 #[cfg(kani)]
 pub mod gen;
 
-#[cfg(any(feature = "c01", feature = "c02", feature = "c03", feature = "c04"))]
+#[cfg(any(feature = "c01", feature = "c02", feature = "c03", feature = "c04", feature = "c07", feature = "c15", feature = "c20"))]
 pub mod verdict;
+#[cfg(feature = "c04")]
+pub mod c04;
+#[cfg(any(feature = "c04", feature = "c05"))]
+pub mod c05;
+#[cfg(feature = "c08")]
+pub mod c08;
 #[cfg(feature = "c09")]
 pub mod c09;
+#[cfg(feature = "c10")]
+pub mod c10;
+#[cfg(feature = "c11")]
+pub mod c11;
 #[cfg(feature = "c12")]
 pub mod c12;
 #[cfg(feature = "probe")]
 pub mod probe;
+#[cfg(any(feature = "c13", feature = "c11"))]
+pub mod c13;
+#[cfg(feature = "c14")]
+pub mod c14;
+#[cfg(any(feature = "c15", feature = "c07"))]
+pub mod c15;
+#[cfg(any(feature = "c16", feature = "c05"))]
+pub mod c16;
+#[cfg(feature = "c17")]
+pub mod c17;
+#[cfg(feature = "c18")]
+pub mod c18;
+#[cfg(feature = "c20")]
+pub mod c20;
 #[cfg(feature = "selftest")]
 pub mod selftest;
 
